@@ -2,6 +2,7 @@ package main
 
 import (
 	"fmt"
+	"go/constant"
 	"go/token"
 	"go/types"
 	"sort"
@@ -79,7 +80,26 @@ func runC14(p *Prog, r *Report, tier string) {
 			guarded := false
 			if swap != nil {
 				for _, gd := range guardsOf(in.Block()) {
-					if gd.If.Cond == ssa.Value(swap) && gd.Succ == 1 {
+					// the swap's result, possibly negated (any number of times) or compared with a boolean constant
+					cond, falseSucc := gd.If.Cond, 1
+					for {
+						u, ok := cond.(*ssa.UnOp)
+						if !ok || u.Op != token.NOT {
+							break
+						}
+						cond, falseSucc = u.X, 1-falseSucc
+					}
+					if bo, ok := cond.(*ssa.BinOp); ok && (bo.Op == token.EQL || bo.Op == token.NEQ) {
+						for _, pr := range [][2]ssa.Value{{bo.X, bo.Y}, {bo.Y, bo.X}} {
+							if k, ok := pr[1].(*ssa.Const); ok && k.Value != nil && k.Value.Kind() == constant.Bool {
+								cond = pr[0]
+								if constant.BoolVal(k.Value) != (bo.Op == token.EQL) {
+									falseSucc = 1 - falseSucc
+								}
+							}
+						}
+					}
+					if cond == ssa.Value(swap) && gd.Succ == falseSucc {
 						guarded = true
 					}
 				}
@@ -430,6 +450,8 @@ func checkBackgroundStart(p *Prog, r *Report, rule string) {
 			}
 			if okG {
 				matched = true
+			} else if onlyErrorReturnsFrom(gd.If.Block().Succs[1-gd.Succ]) {
+				// the other edge makes the constructor fail (no exporting process exists): not a condition on starting the task
 			} else if ex, isEx := gd.If.Cond.(*ssa.Extract); isEx {
 				extra = "a test of " + ex.Tuple.String()
 			} else {
